@@ -152,6 +152,31 @@ impl core::ops::DivAssign for Decimal {
     #[verifier::external_body]
     fn div_assign(&mut self, rhs: Decimal) ensures final(self).v() == old(self).v() / rhs.v() { unimplemented!() } }
 
+impl<'a> SubAssignSpecImpl<&'a Decimal> for Decimal {
+    open spec fn obeys_sub_assign_spec() -> bool { false }
+    open spec fn sub_assign_req(&self, rhs: &'a Decimal) -> bool { true }
+    uninterp spec fn sub_assign_spec(&self, rhs: &'a Decimal) -> &Decimal;
+}
+impl<'a> core::ops::SubAssign<&'a Decimal> for Decimal {
+    #[verifier::external_body]
+    fn sub_assign(&mut self, rhs: &'a Decimal) ensures final(self).v() == old(self).v() - rhs.v() { unimplemented!() } }
+impl<'a> MulAssignSpecImpl<&'a Decimal> for Decimal {
+    open spec fn obeys_mul_assign_spec() -> bool { false }
+    open spec fn mul_assign_req(&self, rhs: &'a Decimal) -> bool { true }
+    uninterp spec fn mul_assign_spec(&self, rhs: &'a Decimal) -> &Decimal;
+}
+impl<'a> core::ops::MulAssign<&'a Decimal> for Decimal {
+    #[verifier::external_body]
+    fn mul_assign(&mut self, rhs: &'a Decimal) ensures final(self).v() == old(self).v() * rhs.v() { unimplemented!() } }
+impl<'a> DivAssignSpecImpl<&'a Decimal> for Decimal {
+    open spec fn obeys_div_assign_spec() -> bool { false }
+    open spec fn div_assign_req(&self, rhs: &'a Decimal) -> bool { rhs.v() != 0real }
+    uninterp spec fn div_assign_spec(&self, rhs: &'a Decimal) -> &Decimal;
+}
+impl<'a> core::ops::DivAssign<&'a Decimal> for Decimal {
+    #[verifier::external_body]
+    fn div_assign(&mut self, rhs: &'a Decimal) ensures final(self).v() == old(self).v() / rhs.v() { unimplemented!() } }
+
 impl PartialEqSpecImpl for Decimal {
     open spec fn obeys_eq_spec() -> bool { true }
     open spec fn eq_spec(&self, other: &Decimal) -> bool { self.v() == other.v() }
